@@ -174,6 +174,18 @@ def post(prop, tier, seed, env, target, outdir, vh):
                     viols.append({"sig": "C17|wall-clock-dependence", "detail": f"the same {n} cases give digest {d1} normally and {d2} with the realtime clock skewed by 10 years", "case": {"Enum": {"what": "clock-skew comparison (shard 2 of 4)", "lo": 0, "hi": n}}, "count": 1})
             else:
                 cov["clock_skew_inconclusive"] = True
+            # (a') another process, the same cases in the opposite order: whatever ran earlier in
+            # a process (first-caller-wins caches, lazily initialised statics) must not matter
+            c2 = os.path.join(outdir, "order_rev.json")
+            rc3, e3, r3 = run_one(vh, prop, tier, seed, 2, 4, n, c2, {"VH_REVERSE": "1", "VH_PRELUDE": "1"})
+            if r1 and r3 and r3.get("cases") == r1.get("cases"):
+                d1, d3 = r1["counters"].get("digest_xor"), r3["counters"].get("digest_xor")
+                cov["reverse_order_runs_compared"] = r3["cases"]
+                cov["reverse_order_digest_equal"] = d1 == d3
+                if d1 != d3 or sorted(v["sig"] for v in r3["violations"]) != sorted(v["sig"] for v in r1["violations"]):
+                    viols.append({"sig": "C17|depends-on-what-ran-earlier-in-the-process", "detail": f"the same {n} cases give digest {d1} in index order and {d3} in reverse order after a prelude of oddly shaped muxers (separate processes)", "case": {"Enum": {"what": "forward vs reverse order comparison (shard 2 of 4)", "lo": 0, "hi": n}}, "count": 1})
+            else:
+                cov["reverse_order_inconclusive"] = True
         else:
             cov["clock_shim_build_failed"] = cc.stdout[-300:]
         if thorough:
